@@ -16,7 +16,7 @@ def _le(a, b):
 
 class Lane(LaneBase):
     PROP = 'C15'
-    THEOREMS = []
+    THEOREMS = 'auto'          # = the `#print axioms` lines of the audit file
     AUDIT = 'CG/Audit/C15.lean'
     DIFF_IS_FAILURE = False
     RULE = ('the C14 generator x extend_graph(b, f, include_all_parents) for b, f in {None,0,1,2,3} x both flags '
